@@ -471,6 +471,32 @@ def run_model(spec):
     if st.label is None: st.feats_ok = False
     return st
 
+def resolution(st, s):
+    """what stage s resolves against the table in state st (the state *before* the stage): the things a filter object
+    works out from the first row it sees -- width, position of a header name, key of a position, categorical columns.
+    Two tables with different resolutions for one stage need a filter object that resolves per table."""
+    k = s["k"]; dense = st.layout == "dense"
+    hdr = st.headers or {}
+    if k == "head": return (st.layout, st.ncols())
+    if k == "encode":
+        if not dense: return ("sparse",)
+        if s["form"] == "seq": return ("dense", st._ncols)
+        return ("dense", st._ncols, tuple(sorted(hdr.get(key, -1) if isinstance(key, str) else key for key, _ in s["items"])))
+    if k == "drop":
+        if not s["cols"]: return None
+        if not dense: return ("sparse",)
+        pos = {hdr.get(c, -1) if isinstance(c, str) else c for c in s["cols"]}
+        return ("dense", st._ncols, tuple(sorted(p for p in pos if 0 <= p < st._ncols)))
+    if k == "label":
+        key = s["key"]
+        if dense: return ("dense", hdr.get(key, -1) if isinstance(key, str) else key)
+        if s.get("via") == "pos": return ("sparse", (st.posmap or {}).get(key))
+        return ("sparse", key)
+    if k == "cat":
+        if dense: return ("dense", tuple(i for i in range(st._ncols) if any(isinstance(r[i], MCat) for r in st.rows)))
+        return ("sparse", tuple(sorted((u for u in st.universe if any(isinstance(r.get(u), MCat) for r in st.rows)), key=repr)))
+    return None
+
 def materialise_prefix(spec, i, lazy=False):
     """the table as it is after the first i stages, as plain lists/dicts (+ a HeadRows stage for dense headers),
     followed by the remaining stages: used by the shrinker only.  Label information of the prefix is dropped."""
